@@ -12,7 +12,7 @@ def bounded(pb, interp, rng, tier):
     ev, fails = 0, []
 
     def fail(fn, what, inst, detail):
-        if len(fails) < 20:
+        if sum(1 for f_ in fails if f_["what"] == what) < 8:      # cap per kind: a known finding must not crowd out a new failure
             fails.append({"function": fn, "what": what, "instance": inst, "inputs": {"case": inst}, "observed": str(detail)[:200], "status": "mismatch"})
     t0 = Time("2021-03-04T05:06:07", scale="utc")
     g = np.random.default_rng(14)
